@@ -1,7 +1,8 @@
 """C13 -- independent contexts are isolated and can run in parallel OS threads.
 
 (a) isolation by exploration (one OS thread): two (thorough: also three) contexts, every pair of operation sequences over the
-    alphabet {define a shared name, define a private name, register a record type, import a C-backed library and fill a table,
+    alphabet {define a shared name, define a private name, register a record type, import a C-backed library and fill a table, import
+    libraries that register C types (in different orders) and use their objects,
     allocate until collections happen, intern fresh symbols, mutate, open+close a descriptor-backed port, keep a file open, destroy} x every interleaving; after every operation each
     live context evaluates a fixed probe whose answer must equal the answer of a context that lived ALONE through the same own
     operations (differential, no hand-written expectation).  Run under ASan so that use-after-destroy is visible.
@@ -34,7 +35,7 @@ def main(tier):
     chk = Check("C13", "model_checking", tier, quick_s=170, thorough_s=1500)
     chk.clean_replays()
     quick = tier == "quick"
-    chk.rule = ("(a) all pairs of per-context operation sequences of length 2 over %d operations x all interleavings (+ three contexts in "
+    chk.rule = ("(a) all pairs of per-context operation sequences of length 2 over %d operations x all interleavings, 20 pairs of sequences that load C-typed libraries in different orders (+ three contexts in "
                 "thorough); (b) all schedules with <= %d pre-emptions at interposed libc points for 2 (and 3) threads; (c) TSan runs with 2,4,8,16 "
                 "threads.  distinct_nontrivial = executions in which operations of different contexts/threads interleave") % (
                     7 if quick else 10, 1 if quick else 2)
@@ -49,7 +50,9 @@ def main(tier):
     seqs = ["".join(s) for s in itertools.product(alpha, repeat=2)]
     if quick:
         seqs += ["fg", "fx", "kg", "fk", "kf", "gf"]           # the descriptor operations: only next to collections / each other
-    seqs = [s for s in seqs if not s.startswith("x")]          # destroying a context that was never used is a no-op
+    seqs = [s for s in seqs if not s.startswith("x")]
+    cseqs = ["cr", "rc", "rg", "rx", "rr"]                         # C-typed libraries loaded in different orders: paired among themselves
+    seqs_all = seqs + [c for c in cseqs if c not in seqs]          # destroying a context that was never used is a no-op
     solo = {}
 
     def solo_run(a):
@@ -58,12 +61,13 @@ def main(tier):
         rc, out = run_ctxmc("asan", args)
         return s, role, rc, out
     with ThreadPoolExecutor(common.NCPU) as ex:
-        for s, role, rc, out in ex.map(solo_run, [(s, r) for s in seqs for r in (0, 1)]):
+        for s, role, rc, out in ex.map(solo_run, [(s, r) for s in seqs_all for r in (0, 1)]):
             if rc != 0 or "AddressSanitizer" in out:
                 chk.violation({"op": "iso-solo", "seq": s}, "solo run of sequence %s failed: %s" % (s, out[-300:]))
             solo[(s, role)] = {int(m.group(1)): m.group(2) for m in re.finditer(r"^P %d (\d+) (.*)$" % role, out, re.M)}
     bseqs = seqs if not quick else [x for x in ("dt", "hg", "dx", "gx", "th", "hd", "kg", "fg") if x in seqs]
     jobs = [(sa, sb, il) for sa in seqs for sb in bseqs for il in interleavings(2, 2)]
+    jobs += [(sa, sb, il) for sa in cseqs for sb in ("cr", "rc", "rx", "hg") for il in interleavings(2, 2) if (sa, sb, il) not in set(jobs)]
 
     def iso_run(j):
         sa, sb, il = j
